@@ -385,7 +385,12 @@ def _comp(seq, k: tuple, flags: int) -> tuple:
             if _has_lookaround(sub):
                 raise Unsupported("look-around under a repeat")
             hi = None if hi == sre_c.MAXREPEAT else hi
-            body = _comp(sub, EPS, flags)
+            loc = [g for g in _repeat_local_groups(sub) if g not in _BINDS]
+            if loc:
+                # a group that is defined and referred back to inside the repeated part is bound anew in every round
+                body = _with_bindings(sub, loc, flags, lambda: _comp(sub, EPS, flags))
+            else:
+                body = _comp(sub, EPS, flags)
             out = cat(rep(body, lo, hi), out)
         elif op is sre_c.ASSERT:
             direction, sub = av
@@ -436,8 +441,53 @@ def _walk_ops(seq):
             yield from _walk_ops(av[1])
 
 
+def _repeat_local_groups(sub) -> list:
+    defined = {av[0] for op, av in _walk_ops(sub) if op is sre_c.SUBPATTERN and av[0] is not None}
+    return sorted({av for op, av in _walk_ops(sub) if op is sre_c.GROUPREF and av in defined})
+
+
+def _group_values(p, g, flags) -> list:
+    body = [list(av[-1]) for op, av in _walk_ops(p) if op is sre_c.SUBPATTERN and av[0] == g]
+    if len(body) != 1 or len(body[0]) != 1:
+        raise Unsupported("back-reference to a group that is not a single character")
+    op, av = body[0][0]
+    if op is sre_c.LITERAL:
+        cs = {chr(av)}
+    elif op is sre_c.IN:
+        cs = set(_in_set(av, bool(flags & re.IGNORECASE)))
+    else:
+        raise Unsupported("back-reference to a group that is not a single character")
+    if len(cs) > 6:
+        raise Unsupported("back-reference to a group with too many values")
+    return sorted(cs)
+
+
+def _with_bindings(p, groups, flags, build) -> tuple:
+    import itertools
+    global _BINDS
+    choices = [_group_values(p, g, flags) for g in groups]
+    saved = dict(_BINDS)
+    out = EMPTY
+    try:
+        for combo in itertools.product(*choices):
+            _BINDS = dict(saved)
+            _BINDS.update(dict(zip(groups, combo)))
+            out = alt(out, build())
+    finally:
+        _BINDS = saved
+    return out
+
+
+def _all_repeat_local(p) -> set:
+    out = set()
+    for op, av in _walk_ops(p):
+        if op in (sre_c.MAX_REPEAT, sre_c.MIN_REPEAT) or str(op) == "POSSESSIVE_REPEAT":
+            out |= set(_repeat_local_groups(av[2]))
+    return out
+
+
 def _comp_top(p, k, flags) -> tuple:
-    refs = sorted({av for op, av in _walk_ops(p) if op is sre_c.GROUPREF})
+    refs = sorted({av for op, av in _walk_ops(p) if op is sre_c.GROUPREF} - _all_repeat_local(p))
     if not refs:
         return _comp(p, k, flags)
     import itertools
